@@ -2,7 +2,7 @@
 // Correspondence ops `infer` (store layer) and `eval` (pure layer, on the zonked elaboration);
 // oracles: C01 (accepted programs do not get stuck), C18 (contexts restored), C14 (no panics,
 // non-empty error lists).
-use crate::out::Out;
+use crate::out::{guarded, Out};
 use crate::pipeline::*;
 use crate::rng::Rng;
 use crate::ser::{HoleMode, Ser};
@@ -34,6 +34,13 @@ fn check_expectation(out: &mut Out, src: &str, origin: &str) {
             _ => ("C02", "feature-program-wrong-value"),
         };
         out.hit(prop, kind, src, &format!("{origin} expected `{exp}`, observed {obs:?}"));
+        // `# props: Cxx Cyy` on the second line: the program demonstrates these properties too (it is the
+        // witness of an earlier violation of them), so a deviation on it is reported under each
+        if let Some(list) = src.lines().nth(1).and_then(|l| l.trim().strip_prefix("# props:")) {
+            for q in list.split_whitespace() {
+                if q != prop { out.hit(q, kind, src, &format!("{origin} expected `{exp}`, observed {obs:?}")); }
+            }
+        }
     }
 }
 
@@ -101,7 +108,7 @@ pub fn check_source(out: &mut Out, names: &mut Ser, src: &str, origin: &str) {
 pub fn run(out: &mut Out, tier: &str, seed: u64) {
     let mut names = Ser::new();
     names.name("_");
-    let _rng = Rng::new(seed ^ 0xC01);
+    let mut rng = Rng::new(seed ^ 0xC01);
     // replay mode: a single source text
     if let Ok(path) = std::env::var("VERIF_ONLY_FILE") {
         if let Ok(src) = std::fs::read_to_string(&path) {
@@ -118,6 +125,7 @@ pub fn run(out: &mut Out, tier: &str, seed: u64) {
                 let origin = format!("corpus:{}", p.file_name().unwrap().to_string_lossy());
                 check_source(out, &mut names, &src, &origin);
                 check_expectation(out, &src, &origin);
+                corpus_variants(out, &mut names, &src, &origin, &mut rng, if tier == "thorough" { 6 } else { 2 });
                 out.stat("corpus-files");
             }
         }
@@ -133,5 +141,174 @@ pub fn run(out: &mut Out, tier: &str, seed: u64) {
     } else {
         eprintln!("E-small file {path} missing");
         std::process::exit(3);
+    }
+}
+
+// ---------------------------------------------------------------------------------------------------
+// Variants of corpus programs.  Every corpus program (feature programs, witnesses of past violations) is
+// rewritten at token level:
+//   * meaning-preserving rewrites of C19 (consistent renaming, redundant parentheses, an unused definition
+//     after any separator, naming the body, `if true` around the body, an annotated identity around the
+//     body): acceptance and value must not change;
+//   * small mutations (literal, operator of the same class, boolean constant, two adjacent top-level
+//     segments swapped): no expectation, they only widen what the correspondence ops see.
+// ---------------------------------------------------------------------------------------------------
+use crate::suite_programs::{observe, Obs};
+use crate::token::Variant as TV;
+
+struct Tk { start: usize, end: usize, kind: TkKind }
+#[derive(Clone, PartialEq)]
+enum TkKind { Ident(String), Lit, Bool(bool), Op(&'static str, u8), Sep, Open, Close, Other }
+
+fn lex(src: &str) -> Option<Vec<Tk>> {
+    let toks = match guarded(|| crate::tokenizer::tokenize(None, src)) { Ok(Ok(t)) => t, _ => return None };
+    Some(toks.iter().filter_map(|t| {
+        let (s, e) = (t.source_range.start, t.source_range.end);
+        let kind = match &t.variant {
+            TV::Identifier(x) => TkKind::Ident((*x).to_owned()),
+            TV::IntegerLiteral(_) => TkKind::Lit,
+            TV::True => TkKind::Bool(true),
+            TV::False => TkKind::Bool(false),
+            TV::Plus => TkKind::Op("+", 0), TV::Minus => TkKind::Op("-", 0), TV::Asterisk => TkKind::Op("*", 0),
+            TV::LessThan => TkKind::Op("<", 1), TV::LessThanOrEqualTo => TkKind::Op("<=", 1), TV::DoubleEquals => TkKind::Op("==", 1),
+            TV::GreaterThan => TkKind::Op(">", 1), TV::GreaterThanOrEqualTo => TkKind::Op(">=", 1),
+            TV::Terminator(_) => TkKind::Sep,
+            TV::LeftParen | TV::LeftCurly => TkKind::Open,
+            TV::RightParen | TV::RightCurly => TkKind::Close,
+            _ => TkKind::Other,
+        };
+        Some(Tk { start: s, end: e, kind })
+    }).collect())
+}
+
+fn splice(src: &str, edits: &mut Vec<(usize, usize, String)>) -> String {
+    edits.sort_by_key(|e| (e.0, e.1));
+    let mut out = String::new();
+    let mut pos = 0;
+    for (s, e, r) in edits.iter() {
+        if *s < pos { continue; }
+        out.push_str(&src[pos..*s]);
+        out.push_str(r);
+        pos = *e;
+    }
+    out.push_str(&src[pos..]);
+    out
+}
+
+fn variants(src: &str, rng: &mut Rng, per_kind: usize) -> Vec<(&'static str, bool, String)> {
+    // (kind, meaning preserving?, text)
+    let mut out = vec![];
+    let Some(tk) = lex(src) else { return out; };
+    if tk.is_empty() { return out; }
+    let code_start = tk[0].start;          // after the leading comment lines
+    let fresh = |n: usize| format!("zq{n}w");
+    let mut names: Vec<String> = tk.iter().filter_map(|t| if let TkKind::Ident(x) = &t.kind { Some(x.clone()) } else { None }).collect();
+    names.sort(); names.dedup();
+    names.retain(|n| n != "_" && !n.starts_with("zq"));
+    // R1: consistent renaming of one name
+    for k in 0..per_kind.min(names.len()) {
+        let n = &names[(rng.below(names.len()) + k) % names.len()];
+        let mut ed: Vec<_> = tk.iter().filter(|t| t.kind == TkKind::Ident(n.clone())).map(|t| (t.start, t.end, fresh(1))).collect();
+        out.push(("rename", true, splice(src, &mut ed)));
+    }
+    // R2: redundant parentheses around an atom in expression position
+    let atoms: Vec<usize> = (0..tk.len()).filter(|&i| {
+        let next_binds = matches!(tk.get(i + 1).map(|t| &src[t.start..t.end]), Some("=" | ":" | "=>" | "}"));
+        let prev_curly = i > 0 && &src[tk[i - 1].start..tk[i - 1].end] == "{";
+        match &tk[i].kind { TkKind::Lit | TkKind::Bool(_) => true, TkKind::Ident(x) => x != "_" && !next_binds && !prev_curly, _ => false }
+    }).collect();
+    for _ in 0..per_kind.min(atoms.len()) {
+        let t = &tk[atoms[rng.below(atoms.len())]];
+        out.push(("parens", true, splice(src, &mut vec![(t.start, t.end, format!("({})", &src[t.start..t.end]))])));
+    }
+    // R3: an unused definition after a separator (any nesting depth), or in front of the whole program
+    let seps: Vec<usize> = (0..tk.len()).filter(|&i| tk[i].kind == TkKind::Sep).collect();
+    out.push(("unused-def-front", true, splice(src, &mut vec![(code_start, code_start, format!("{} = 1; ", fresh(2)))])));
+    for _ in 0..per_kind.min(seps.len()) {
+        let t = &tk[seps[rng.below(seps.len())]];
+        // after `;` another `;`-terminated definition; after a separating line break a line of its own
+        let ins = if &src[t.start..t.end] == ";" { format!(" {} = 1;", fresh(2)) } else { format!("{} = 1\n", fresh(2)) };
+        out.push(("unused-def", true, splice(src, &mut vec![(t.end, t.end, ins)])));
+    }
+    // the body: everything after the last separator at bracket depth 0 (or the whole program)
+    let mut depth = 0i32;
+    let mut body_from = code_start;
+    for t in &tk {
+        match t.kind { TkKind::Open => depth += 1, TkKind::Close => depth -= 1, TkKind::Sep if depth == 0 => body_from = t.end, _ => {} }
+    }
+    let body_to = tk.last().unwrap().end;
+    if body_from < body_to && tk.last().unwrap().kind != TkKind::Sep {
+        let body = src[body_from..body_to].trim().to_owned();
+        let lead = if body_from == code_start { "" } else { " " };
+        // R4: naming the body
+        out.push(("name-body", true, splice(src, &mut vec![(body_from, body_to, format!("{lead}{} = {body}; {}", fresh(3), fresh(3)))])));
+        // R5: `if true`
+        out.push(("if-true", true, splice(src, &mut vec![(body_from, body_to, format!("{lead}if true then ({body}) else ({body})"))])));
+        // R6: annotated identity, when the value's type is evident from the value
+        if let Obs::Value(v) = observe(src) {
+            let ty = if v == "true" || v == "false" { Some("bool") } else if v.trim_start_matches('-').chars().all(|c| c.is_ascii_digit()) && !v.is_empty() { Some("int") } else { None };
+            if let Some(ty) = ty {
+                out.push(("identity", true, splice(src, &mut vec![(body_from, body_to, format!("{lead}(({} : {ty}) => {}) ({body})", fresh(4), fresh(4)))])));
+            }
+        }
+    }
+    // mutations -- not for programs with type families: a mutated recursion argument of a type-level function
+    // makes the implementation's normalizer (which has no step bound) run forever
+    if src.contains("-> type") || src.contains("->type") { return out; }
+    let lits: Vec<usize> = (0..tk.len()).filter(|&i| tk[i].kind == TkKind::Lit).collect();
+    for _ in 0..per_kind.min(lits.len()) {
+        let t = &tk[lits[rng.below(lits.len())]];
+        out.push(("mut-literal", false, splice(src, &mut vec![(t.start, t.end, format!("{}", rng.below(4)))])));
+    }
+    let ops: Vec<usize> = (0..tk.len()).filter(|&i| matches!(tk[i].kind, TkKind::Op(..))).collect();
+    for _ in 0..per_kind.min(ops.len()) {
+        let t = &tk[ops[rng.below(ops.len())]];
+        if let TkKind::Op(cur, class) = &t.kind {
+            let pool: &[&str] = if *class == 0 { &["+", "-", "*"] } else { &["<", "<=", "==", ">", ">="] };
+            let new = pool[rng.below(pool.len())];
+            if new != *cur { out.push(("mut-operator", false, splice(src, &mut vec![(t.start, t.end, new.to_owned())]))); }
+        }
+    }
+    let bools: Vec<usize> = (0..tk.len()).filter(|&i| matches!(tk[i].kind, TkKind::Bool(_))).collect();
+    for _ in 0..per_kind.min(bools.len()) {
+        let t = &tk[bools[rng.below(bools.len())]];
+        if let TkKind::Bool(b) = t.kind { out.push(("mut-bool", false, splice(src, &mut vec![(t.start, t.end, (!b).to_string())]))); }
+    }
+    // two adjacent depth-0 segments swapped
+    let mut cuts = vec![code_start];
+    let mut depth = 0i32;
+    for t in &tk {
+        match t.kind { TkKind::Open => depth += 1, TkKind::Close => depth -= 1, TkKind::Sep if depth == 0 => cuts.push(t.end), _ => {} }
+    }
+    if cuts.len() >= 3 {
+        for _ in 0..per_kind.min(cuts.len() - 2) {
+            let i = rng.below(cuts.len() - 2);
+            let (a, b, c) = (cuts[i], cuts[i + 1], cuts[i + 2]);
+            let (s1, s2) = (&src[a..b], &src[b..c]);
+            let s1t = s1.trim_end();
+            let glue = if s1t.ends_with(';') { " " } else { "\n" };
+            out.push(("mut-swap-definitions", false, format!("{}{}{}{}{}", &src[..a], s2, if s2.trim_end().ends_with(';') || s2.ends_with('\n') { "" } else { glue }, s1, &src[c..])));
+        }
+    }
+    out
+}
+
+fn corpus_variants(out: &mut Out, names: &mut Ser, src: &str, origin: &str, rng: &mut Rng, per_kind: usize) {
+    let base = observe(src);
+    if base == Obs::Panic { return; }
+    for (kind, preserving, text) in variants(src, rng, per_kind) {
+        if text == src { continue; }
+        out.stat(&format!("variant:{kind}"));
+        check_source(out, names, &text, &format!("{origin}+{kind}"));
+        if !preserving { continue; }
+        let obs = observe(&text);
+        let same = match (&base, &obs) {
+            (Obs::Rejected(_), Obs::Rejected(_)) => true,
+            (Obs::Cap, _) | (_, Obs::Cap) => true,      // no verdict within the step budget
+            (a, b) => a == b,
+        };
+        if same { out.stat("variant:outcome-unchanged"); } else {
+            out.hit("C19", &format!("rewrite-{kind}-changes-outcome"), &text, &format!("{origin} original outcome {base:?}, rewritten outcome {obs:?}; original program: {}", src.replace('\n', "\\n")));
+        }
     }
 }
